@@ -57,3 +57,120 @@ func vh_C10_L1_admission() {
 	vobserve("n", uint64(len(chunks)))
 	vcover("end")
 }
+
+// C10.L3: congestion window laws at the loss signals and on acknowledgement.
+func vh_C10_L3_cwnd_laws() {
+	vStub("setNewRTT")
+	a, _ := vNewAssoc()
+	mtu := a.MTU()
+	cwnd := nondetU32()
+	vassume(cwnd >= mtu && cwnd <= 1<<24)
+	s, _ := a.OpenStream(1, PayloadTypeWebRTCBinary)
+	for i := 0; i < 4; i++ {
+		_, _ = s.WriteSCTP(make([]byte, 10), PayloadTypeWebRTCBinary)
+	}
+	a.cwnd, a.rwnd = 1<<20, 1<<20
+	budget, consumed := int64(0), false
+	a.lock.Lock()
+	chunks, _ := a.popPendingDataChunksToSend(&budget, &consumed)
+	a.lock.Unlock()
+	vassert(len(chunks) == 4, "four chunks in flight")
+	base := a.cumulativeTSNAckPoint
+	a.cwnd = cwnd
+	a.ssthresh = nondetU32()
+	a.minCwnd = 0
+	switch vPick(3) {
+	case 0: // T3 expiry
+		a.t3RTX.start(1000)
+		vassert(vFireRtx(a, a.t3RTX), "T3 expires")
+		want := cwnd / 2
+		if want < 4*mtu {
+			want = 4 * mtu
+		}
+		vassert(a.ssthresh == want, "T3: ssthresh = max(cwnd/2, 4*MTU)")
+		vassert(a.cwnd == mtu, "T3: cwnd = 1 MTU")
+		vassert(!a.inFastRecovery, "T3 leaves fast recovery")
+		vcover("t3")
+	case 1: // third miss indication: fast retransmit / fast recovery, once
+		chunks[0].missIndicator = 2
+		sack := &chunkSelectiveAck{cumulativeTSNAck: base, advertisedReceiverWindowCredit: 1 << 20, gapAckBlocks: []gapAckBlock{{2, 2}}}
+		vassert(vDeliver(a, sack) == nil, "SACK ok")
+		want := cwnd / 2
+		if want < 4*mtu {
+			want = 4 * mtu
+		}
+		vassert(a.inFastRecovery && a.willRetransmitFast, "three miss indications start fast recovery and a fast retransmit")
+		vassert(a.ssthresh == want && a.cwnd == want, "fast recovery: ssthresh = max(cwnd/2, 4*MTU), cwnd = ssthresh")
+		vassert(a.cwnd >= mtu, "the congestion window never falls below one MTU")
+		// a further gap report in the same recovery does not cut again
+		chunks[2].missIndicator = 2
+		sack2 := &chunkSelectiveAck{cumulativeTSNAck: base, advertisedReceiverWindowCredit: 1 << 20, gapAckBlocks: []gapAckBlock{{2, 2}, {4, 4}}}
+		vassert(vDeliver(a, sack2) == nil, "SACK ok")
+		vassert(a.cwnd == want && a.ssthresh == want, "the window is cut once per recovery")
+		vcover("fast-recovery")
+	case 2: // cumulative ack: growth only with pending data, bounded
+		pending := vPick(2) == 1
+		if pending {
+			_, _ = s.WriteSCTP(make([]byte, 10), PayloadTypeWebRTCBinary)
+		}
+		ss := a.ssthresh
+		sack := &chunkSelectiveAck{cumulativeTSNAck: base + 2, advertisedReceiverWindowCredit: 1 << 20}
+		vassert(vDeliver(a, sack) == nil, "SACK ok")
+		acked := uint32(20)
+		if cwnd <= ss {
+			if pending {
+				vassert(a.cwnd == cwnd+acked || (acked > cwnd && a.cwnd == 2*cwnd), "slow start grows cwnd by min(bytes acked, cwnd)")
+			} else {
+				vassert(a.cwnd == cwnd, "cwnd does not grow when no data is waiting")
+			}
+		} else {
+			vassert(a.cwnd == cwnd || a.cwnd == cwnd+mtu, "congestion avoidance grows cwnd by at most one MTU per SACK")
+			if !pending {
+				vassert(a.cwnd == cwnd, "cwnd does not grow when no data is waiting")
+			}
+		}
+		vassert(a.cwnd >= mtu, "the congestion window never falls below one MTU")
+		vcover("growth")
+	}
+}
+
+// C10.L4: every packet that carries user data fits the MTU; larger messages are fragmented
+// to the maximum payload size; nothing is lost or reordered by fragmentation and bundling.
+func vh_C10_L4_mtu_bound() {
+	il := vPick(2) == 1
+	mtu := []uint32{36, 100, 1191}[vPick(3)]
+	a, _ := vNewAssocOpts(vAssocOpts{interleaving: il, mtu: mtu})
+	maxp := int(a.maxPayloadSize)
+	vassert(maxp > 0 && maxp%4 == 0, "payload size positive and aligned")
+	s, _ := a.OpenStream(1, PayloadTypeWebRTCBinary)
+	nmsg := 1 + vPick(2)
+	total := 0
+	for i := 0; i < nmsg; i++ {
+		size := []int{1, maxp, maxp + 1, 2*maxp + 3}[vPick(4)]
+		_, werr := s.WriteSCTP(make([]byte, size), PayloadTypeWebRTCBinary)
+		vassert(werr == nil, "write accepted")
+		total += size
+	}
+	a.cwnd, a.rwnd = 1<<20, 1<<20
+	got := 0
+	next := a.myNextTSN
+	for _, raw := range vWriterPass(a) {
+		p := vDecode(raw)
+		hasData := false
+		for _, c := range p.chunks {
+			if d, ok := c.(*chunkPayloadData); ok {
+				hasData = true
+				vassert(len(d.userData) <= maxp && len(d.userData) > 0, "fragments are at most the maximum payload size")
+				vassert(d.tsn == next, "TSNs are consecutive in emission order")
+				next++
+				got += len(d.userData)
+			}
+		}
+		if hasData {
+			vassert(len(raw) <= int(mtu), "every packet that carries user data fits in the MTU")
+		}
+	}
+	vassert(got == total, "all user bytes are emitted")
+	vobserve("got", uint64(got))
+	vcover("end")
+}
